@@ -100,7 +100,9 @@ func (g *vxG) text() string {
 	return "?"
 }
 
-var vxRuleB = []string{"b = INT\n", "b = ?INT\n", "b = a INT\n", "b = *INT \"+\"\n"}
+var vxRuleB = []string{"b = INT\n", "b = ?INT\n", "b = a INT\n", "b = *INT \"+\"\n",
+	// left recursion inside the second rule only (through ?, * and a third rule): not visible from the first rule's FIRST set
+	"b = ?b INT\n", "b = *b \"+\"\n", "b = c INT\nc = ?b \"x\"\n"}
 
 // ---- token stream stub ------------------------------------------------
 
